@@ -1,7 +1,8 @@
 """C05 case generator + python property oracle helpers.
 
 Case line:  plen=<n> total=<n> done=<01..> seed=<n> files=<a,b,..> [enc=1] | op ...
-  enc=1    RC4 stream (the scripted peer negotiates MSE first)
+  enc=1    RC4 stream (the scripted peer negotiates MSE first)      enc=2  MSE handshake, plaintext stream (crypto_select 1)
+  out=1    the library makes the connection (scripted peer = MSE responder); needs enc=1|2
   R:i:b:l  REQUEST     C:i:b:l  CANCEL     D:0 / D:1  unchoke / choke decision
   W:k      the library-side socket accepts k more bytes in this event_write      W:inf  unlimited
 Normal form (the harness needs it): D:1 never directly follows R/C/D:0 and is always followed by a W
@@ -29,9 +30,12 @@ class Layout:
             return self.plen
         return self.total % self.plen
 
-    def head(self, enc=False):
-        return "plen=%d total=%d done=%s seed=%d files=%s%s" % (
-            self.plen, self.total, self.done, self.seed, ",".join(map(str, self.files)), " enc=1" if enc else "")
+    def head(self, enc=0, out=False, role=None):
+        """enc: 0 plain, 1 MSE + RC4 stream, 2 MSE handshake + plaintext stream; out: the library connects out
+        (needs enc 1|2); role='iseed': initial-seeding torrent (oracle only, see props/c05.py)"""
+        return "plen=%d total=%d done=%s seed=%d files=%s%s%s%s" % (
+            self.plen, self.total, self.done, self.seed, ",".join(map(str, self.files)),
+            " enc=%d" % int(enc) if enc else "", " out=1" if (out and enc) else "", " role=%s" % role if role else "")
 
     def parts(self, i):
         """[(begin, end)] offsets inside piece i of the non-empty file parts it is made of"""
@@ -46,7 +50,7 @@ class Layout:
 
 
 def parse_head(h):
-    kv = dict(t.split("=", 1) for t in h.split())
+    kv = dict(t.split("=", 1) for t in h.split() if "=" in t)
     return Layout(int(kv["plen"]), [int(x) for x in kv["files"].split(",")], kv["done"], int(kv["seed"]))
 
 
@@ -291,16 +295,30 @@ def gen(seed, tier):
             cases.append(LAYOUTS[5].head(e) + " | " + " ".join(normalize(h.split())))
             stats["hand"] += 1
     nval, nbnd, nmal, npar = (60, 90, 40, 60) if tier == "quick" else (500, 700, 300, 500)
-    stats.update(parts=0, rc4=0, plain=0)
+    stats.update(parts=0, rc4=0, plain=0, mse_plain=0, outgoing=0)
+    for L in LAYOUTS[:2]:
+        for h in HAND_ENC[:3]:
+            for (e, o) in ((1, True), (2, True), (2, False)):
+                cases.append(L.head(e, o) + " | " + " ".join(normalize(h.split())))
+                stats["hand"] += 1
     for mode, cnt in (("valid", nval), ("boundary", nbnd), ("malformed", nmal), ("parts", npar)):
         for j in range(cnt):
             L = LAYOUTS[j % len(LAYOUTS)]
             if mode == "parts":
                 L = LAYOUTS[(0, 1, 4, 5, 2)[j % 5]]
-            e = r.random() < (0.7 if mode == "parts" else 0.4)
-            cases.append(L.head(e) + " | " + " ".join(gen_stream(r, L, mode)))
+            e = 1 if r.random() < (0.7 if mode == "parts" else 0.4) else (2 if r.random() < 0.15 else 0)
+            o = e != 0 and r.random() < 0.3
+            cases.append(L.head(e, o) + " | " + " ".join(gen_stream(r, L, mode)))
             stats[mode] += 1
-            stats["rc4" if e else "plain"] += 1
+            stats[("rc4", "plain", "mse_plain")[(1, 0, 2).index(e)]] += 1
+            stats["outgoing"] += 1 if o else 0
+    # initial-seeding role (oracle only): the library offers pieces with HAVE, may drop requests and choke
+    stats["iseed"] = 0
+    for j in range(30 if tier == "quick" else 200):
+        L = LAYOUTS[(0, 3, 2)[j % 3]]
+        e = r.choice([0, 0, 1, 2])
+        cases.append(L.head(e, False, "iseed") + " | " + " ".join(gen_stream(r, L, ("valid", "boundary", "parts")[j % 3])))
+        stats["iseed"] += 1
     # queue bound: more than 2048 outstanding one-byte requests, writer blocked
     for L in (LAYOUTS[0],) if tier == "quick" else (LAYOUTS[0], LAYOUTS[3]):
         ps = L.psize(0)
@@ -332,6 +350,7 @@ def oracle(case, line):
         return []          # harness trouble, reported as broken correspondence by the caller
     head, _, opstr = case.partition("|")
     L = parse_head(head)
+    iseed = " role=iseed" in head
     main, _, extra = line.partition(" || ")
     if " ERR:" in main:
         return []          # harness trouble (reported as broken correspondence)
@@ -369,7 +388,8 @@ def oracle(case, line):
         if not cands:
             bad.append(("piece-not-requested", "PIECE %s does not answer any REQUEST received while unchoked" % m))
         else:
-            if not any(q[2] >= seen_c1 for q in cands):
+            # (initial seeding chokes on its own, so its CHOKEs cannot be matched with the D:1 ops)
+            if not iseed and not any(q[2] >= seen_c1 for q in cands):
                 bad.append(("piece-after-choke", "PIECE %s answers only requests that a written CHOKE had discarded" % m))
             used[t] = used.get(t, 0) + 1
             if used[t] > len(cands):
